@@ -11,6 +11,13 @@ malformed strings) goes through the real `c_` / `e_` and through
       wrong arities; fixed list + seeded random mixtures): it validates the evaluator's Python semantics against CPython.
       `unsupported` / `out_of_fuel` where CPython answers is a broken tie, never a pass.
 The domain the kernel decides (`Cij.VoigtSrc.domainC/E`, op `c10.domain`) is checked to be exactly `all_inputs()`.
+
+Beyond the finite domain the theorems `voigt_model_is_source_ints` / `voigt_source_rejects_standard*` / `voigt_source_modulus_integer`
+speak about ALL integers (two / four positional integers of any size and sign; one integer below 10^1900, which the source spells
+with `str(n)`).  Their tie to CPython is a SAMPLED stream (`wide_int_stream`, seeded): every two-digit integer, the digit-count
+boundaries, powers of ten +-1 up to 10^30, random integers up to 10^12 and negative ones as single arguments; pairs and quadruples
+with both indices negative / both >= 4 of magnitudes up to 10^9 and next to each other.  Each goes through the real code, the hand
+model, the translated source under PyLite (value, views, exception kind, message) and the oracle `input_spec`.
 """
 from __future__ import annotations
 
@@ -113,6 +120,58 @@ def all_inputs():
     return ops
 
 
+def wide_int_stream(rng, thorough):
+    """(op, args) outside the decided domain: integers of any size and sign (see the module docstring).  Deterministic part first,
+    then the seeded part; duplicates and members of the decided domain removed."""
+    out = []
+    for n in range(10, 100):
+        out.append(("c_", [n])); out.append(("e_", [n]))
+    edge = [9, 99, 100, 101, 999, 1000, 1001, 1111, 1123, 2312, 3333, 3213, 4111, 1411, 1141, 1114, 9999, 10000, 10001, 11111, 99999,
+            100000, 123456, 10 ** 12, 10 ** 12 - 1, 10 ** 12 + 1, 11 * 10 ** 11 + 23, -1, -2, -9, -10, -11, -12, -46, -99, -100, -1123,
+            -2312, -10 ** 12]
+    for k in range(5, 31):
+        edge += [10 ** k, 10 ** k - 1, 10 ** k + 1]
+    for n in edge:
+        out.append(("c_", [n])); out.append(("e_", [n]))
+    n_rand = 400 if thorough else 120
+    for _ in range(n_rand):
+        kind = int(rng.integers(6))
+        if kind == 0: n = int(rng.integers(100, 1000))
+        elif kind == 1: n = int(rng.integers(1000, 10000))
+        elif kind == 2: n = int("".join(str(int(rng.integers(1, 4))) for _ in range(4)))      # four digits in 1..3: accepted
+        elif kind == 3: n = int(rng.integers(10000, 10 ** 12))
+        elif kind == 4: n = -int(rng.integers(1, 10 ** 12))
+        else: n = int(rng.integers(10 ** 12, 2 ** 62)) * int(rng.integers(1, 2 ** 30))
+        out.append(("c_" if rng.integers(2) else "e_", [n]))
+    # pairs whose two indices have the same sign and are both outside 1..3: `sorted((i, j))` decides between two magnitudes
+    near = [-3, -2, -1, 4, 5, 6, 7, 8, 9, 10, 11]
+    def big(): return int(rng.integers(4, 10 ** 9))
+    def neg(): return -int(rng.integers(1, 10 ** 9))
+    pairs = [(a, b) for a in near for b in near]
+    for _ in range(300 if thorough else 80):
+        f = (big, neg)[int(rng.integers(2))]
+        a, b = f(), f()
+        pairs += [(a, b), (b, a), (a, a), (a, a + 1), (a + 1, a)]
+    for _ in range(60 if thorough else 20):                                              # one index in range, one far away
+        a = int(rng.integers(1, 4)); b = (big, neg)[int(rng.integers(2))]()
+        pairs += [(a, b), (b, a)]
+    for a, b in pairs:
+        out.append(("e_", [a, b])); out.append(("c_", [a, b]))
+    good = [(1, 1), (2, 2), (3, 3), (2, 3), (3, 2), (1, 3), (3, 1), (1, 2), (2, 1)]
+    for _ in range(300 if thorough else 80):
+        a, b = pairs[int(rng.integers(len(pairs)))]
+        g = good[int(rng.integers(len(good)))]
+        h = pairs[int(rng.integers(len(pairs)))]
+        out.append(("c_", [a, b, g[0], g[1]])); out.append(("c_", [g[0], g[1], a, b])); out.append(("c_", [a, b, h[0], h[1]]))
+    dom = {(o, tuple(map(repr, a))) for o, a in all_inputs()}
+    seen, res = set(), []
+    for o, a in out:
+        k = (o, tuple(map(repr, a)))
+        if k in dom or k in seen: continue
+        seen.add(k); res.append((o, a))
+    return res
+
+
 # ----------------------------------------------------------------------------- translated source (PyLite) vs CPython
 def enc(v):
     """typed encoding of a CPython value — the same encoding as `valJson` in lean/CijModel/Ops/C10.lean"""
@@ -130,8 +189,17 @@ def py_args(args):
     return [tuple(py_args(a)) if isinstance(a, list) else a for a in args]
 
 
+def safe_str(x, f=str):
+    """`str` / `repr` of a value or an exception of the code under test; formatting a broken object (a NamedTuple outside the
+    tables: its `__repr__` raises KeyError, whose own `str` calls that `__repr__` again) must not take the harness down"""
+    try:
+        return f(x)
+    except Exception as e2:
+        return f"<{type(x).__name__}: {f.__name__} raised {type(e2).__name__}>"
+
+
 def exc_json(e):
-    return {"exc": type(e).__name__, "msg": str(e)}
+    return {"exc": type(e).__name__, "msg": safe_str(e)}
 
 
 C_VIEWS = ["s", "v", "standard", "voigt", "multiplicity", "is_longitudinal", "is_off_diagonal", "is_shear", "calc_type", "__repr__"]
@@ -148,7 +216,7 @@ def src_canon(fn, args):
     views = C_VIEWS if type(r).__name__ == "ModulusRepresentation" else E_VIEWS if type(r).__name__ == "StrainRepresentation" else []
     for p in views:
         try:
-            out[p] = {"ok": enc(repr(r) if p == "__repr__" else getattr(r, p))}
+            out[p] = {"ok": enc(repr(r) if p == "__repr__" else getattr(r, p))}   # a raising view is recorded as such, below
         except Exception as e:
             out[p] = exc_json(e)
     return out
@@ -228,25 +296,25 @@ def oracle(check: str, payload):
         s = "".join(map(str, t))
         a = c_(*t)
         for other in (c_(s), c_(int(s))):
-            if other != a or hash(other) != hash(a): return (repr(other), repr(a))
+            if other != a or hash(other) != hash(a): return (safe_str(other, repr), safe_str(a, repr))
         return None
     if check == "two_vs_four":
         p = payload["p"]
         a = c_(*p); b = c_(*STD[p[0]], *STD[p[1]])
-        if a != b: return (repr(a), repr(b))
+        if a != b: return (safe_str(a, repr), safe_str(b, repr))
         return None
     if check == "roundtrip":
         p = payload["p"]
         k = c_(*p)
         exp_v = tuple(sorted(p))
         if tuple(k.v) != exp_v: return (k.v, exp_v)
-        if c_(*k.s) != k or c_(*k.v) != k: return ("roundtrip differs", repr(k))
+        if c_(*k.s) != k or c_(*k.v) != k: return ("roundtrip differs", safe_str(k, repr))
         st = STD[exp_v[0]] + STD[exp_v[1]]
         if tuple(k.s) != st: return (k.s, st)
         return None
     if check == "voigt_map":
         for v, st in STD.items():
-            if tuple(e_(v).s) != st or e_(*st).v != v or e_(st[1], st[0]).v != v: return (repr(e_(v)), st)
+            if tuple(e_(v).s) != st or e_(*st).v != v or e_(st[1], st[0]).v != v: return (safe_str(e_(v), repr), st)
         return None
     if check == "multiplicity":
         p = payload["p"]
@@ -266,9 +334,9 @@ def oracle(check: str, payload):
             flags = (bool(k.is_longitudinal), bool(k.is_off_diagonal), bool(k.is_shear))
             hi = max(k.v)
             exp = (k.v[0] == k.v[1] and hi <= 3, k.v[0] != k.v[1] and hi <= 3, hi >= 4)
-            if flags != exp: return ((repr(k), flags), exp)
+            if flags != exp: return ((safe_str(k, repr), flags), exp)
             if k.calc_type.name != ["LONGITUDINAL", "OFF_DIAGONAL", "SHEAR"][exp.index(True)]:
-                return ((repr(k), k.calc_type.name), exp)
+                return ((safe_str(k, repr), k.calc_type.name), exp)
             for i in range(3): cnt[i] += flags[i]
         if cnt != [3, 3, 15]: return (cnt, [3, 3, 15])
         return None
@@ -292,7 +360,7 @@ def oracle(check: str, payload):
             r = fn(*payload["args"])
         except Exception:
             return None
-        return (repr(r), "rejected")
+        return (safe_str(tuple(r), repr) + " (a " + type(r).__name__ + ")", "rejected")
     raise ValueError(check)
 
 
@@ -379,9 +447,12 @@ def run(ctx: Ctx) -> Result:
     res = Result()
     res.exhaustive = True
     res.rule = ("complete finite domain: 81 tuples + 36 pairs + 9 strain pairs + 6 strain Voigt indices, each in positional/str/int "
-                "spelling, plus indices 0..4 (standard) and 0..7 (Voigt) and malformed spellings; a case is one (function, argument "
-                "list); all are distinct; non-trivial = every case (each exercises a distinct dispatch path or value); evaluations "
-                "counts each case once against the hand model and once against the translated source, plus the malformed stream")
+                "spelling, plus indices 0..4 (standard) and 0..7 (Voigt) and malformed spellings — all of it, nothing sampled; PLUS a "
+                "seeded stream of integers outside it (all two-digit integers, digit-count boundaries, up to 10^30 and negative as "
+                "single arguments; same-sign pairs / quadruples up to 10^9) for the theorems quantified over all integers; a case is "
+                "one (function, argument list); all are distinct; non-trivial = every case (each exercises a distinct dispatch path "
+                "or value); evaluations counts each case once against the hand model and once against the translated source, plus "
+                "the malformed stream")
     inputs = all_inputs()
     ops = [{"op": op, "args": args} for op, args in inputs]
     model = ctx.driver.ask(ops)
@@ -394,7 +465,19 @@ def run(ctx: Ctx) -> Result:
             res.disagreements.append(Disagreement(op, args, impl, m))
         else:
             res.traces_validated += 1
-    res.distinct_nontrivial = len({(op, tuple(map(repr, a))) for op, a in inputs})
+    # ---- integers beyond the decided domain (sampled; the theorems about them are universally quantified)
+    wide = wide_int_stream(ctx.rng, ctx.thorough())
+    wmodel = ctx.driver.ask([{"op": op, "args": args} for op, args in wide])
+    n_wide_err = 0
+    for (op, args), m in zip(wide, wmodel):
+        impl = call(c_ if op == "c_" else e_, canon_c if op == "c_" else canon_e, args)
+        res.evaluations += 1
+        if impl == "error": n_wide_err += 1
+        if impl != m:
+            res.disagreements.append(Disagreement(op, args, impl, m, "wide-integer stream: real code differs from the hand model"))
+        else:
+            res.traces_validated += 1
+    res.distinct_nontrivial = len({(op, tuple(map(repr, a))) for op, a in inputs + wide})
     # ---- the domain the kernel decides is exactly this one
     dom = ctx.driver.ask([{"op": "c10.domain"}])[0]
     lean_dom = {(o, repr(a)) for o in ("c_", "e_") for a in dom[o]}
@@ -407,7 +490,7 @@ def run(ctx: Ctx) -> Result:
     malformed = [(o, a) for a in MALFORMED_FIXED for o in ("c_", "e_")]
     for a in malformed_stream(ctx.rng, n_mal):
         malformed.append(("c_" if ctx.rng.integers(2) else "e_", a))
-    src_inputs = inputs + malformed
+    src_inputs = inputs + wide + malformed
     src_out = ctx.driver.ask([{"op": "c10.src", "fn": op, "args": args} for op, args in src_inputs])
     src_stats = {"value": 0, "unsupported_or_fuel": 0}
     n_src_ok = 0
@@ -450,14 +533,14 @@ def run(ctx: Ctx) -> Result:
                    {"op": "c_", "args": [5], "impl": call(c_, canon_c, [5])},
                    {"op": "e_", "args": [3, 1], "impl": call(e_, canon_e, [3, 1])}]
     # the property's own statement on the real code (independent of the model)
-    cases = oracle_cases()
+    cases = oracle_cases() + [("input_spec", {"op": op, "args": args}) for op, args in wide]
     n_or = 0
     for check, payload in cases:
         n_or += 1
         try:
             r = oracle(check, payload)
         except Exception as e:
-            r = (f"exception {type(e).__name__}: {e}", "no exception")
+            r = (f"exception {type(e).__name__}: {safe_str(e)}", "no exception")
         if r is not None:
             res.oracle_failures.append(OracleFailure(
                 what=f"{check} fails", input={"check": check, "payload": payload}, observed=r[0], expected=r[1],
@@ -474,7 +557,10 @@ def run(ctx: Ctx) -> Result:
                                                      observed=r[0], expected=r[1], site=f"sequence:{seq}"))
     res.distribution = {"correspondence_cases": len(inputs), "rejected_by_impl": n_err,
                         "accepted_by_impl": len(inputs) - n_err, "oracle_clauses_evaluated": n_or,
-                        "src_cases": len(inputs), "src_malformed_cases": len(malformed), "src_agree": n_src_ok,
+                        "wide_integer_cases": len(wide), "wide_integer_rejected_by_impl": n_wide_err,
+                        "wide_integer_single_argument": sum(1 for _, a in wide if len(a) == 1),
+                        "wide_integer_max_digits": max(len(str(abs(x))) for _, a in wide for x in a),
+                        "src_cases": len(inputs) + len(wide), "src_malformed_cases": len(malformed), "src_agree": n_src_ok,
                         "src_outcomes_cpython": src_stats}
     return res
 
